@@ -67,6 +67,8 @@ pub fn op_alphabet() -> Vec<Op> {
         // a symbolic operator that continues with a character no built-in operator contains, and a
         // word operator whose name is short in characters but long in bytes
         Op::Infix("=~", 105, true, "A"),
+        // a symbolic operator that continues with a letter
+        Op::Infix("/i", 120, true, "A"),
         Op::Infix("\u{4e0d}\u{5305}\u{542b}\u{4e8e}", 105, true, "A"),
         Op::Postfix("npo", "A"),
         Op::Postfix("++", "A"),
@@ -182,6 +184,10 @@ const PROBES: &[&str] = &[
     // a name bound to a context function is assigned the very value that function returns
     // with no arguments: afterwards it is a variable, and a call goes to the global function
     "nf = 'ctx-nf(0)' ; nf(1)",
+    // the callee is re-bound while its own arguments are evaluated: the call uses the binding
+    // that exists when the arguments are done
+    "nf(nf = 1)",
+    "7 /i 2",
     "1 =~ 2",
     "x = 1 ; x =~ 2",
     "1 \u{4e0d}\u{5305}\u{542b}\u{4e8e} 2",
